@@ -209,6 +209,21 @@ def init_rules(chk, r):
         if got != "ValueError":
             chk.violation("active/set_geometry-accepts-non-geometry-column", dict(api="set_geometry", column=bad, got=got))
     chk.count("init-rules", 5)
+    # sjoin: the result carries, as active geometry, the joined column of the side it keeps - also when the merge had to rename it
+    from spatialpandas import sjoin
+    lpts = [[r.randint(0, 12), r.randint(0, 12)] for _ in range(5)]
+    polys = [[[0, 0, 7, 0, 7, 7, 0, 7, 0, 0]], [[5, 5, 13, 5, 13, 13, 5, 13, 5, 5]]]
+    lfr = GeoDataFrame({"shape": geo.make_array("line", [[i, 0, i, 1] for i in range(5)], "float64"), "pts": geo.make_array("point", lpts, "float64"),
+                        "lv": list(range(5))}).set_geometry("pts")
+    rfr = GeoDataFrame({"shape": geo.make_array("polygon", polys, "float64"), "rv": [10, 11]})
+    for how, want_name, want_kind in (("inner", "pts", "point"), ("left", "pts", "point"), ("right", "shape_r", "polygon")):
+        try:
+            res = sjoin(lfr, rfr, how=how, lsuffix="l", rsuffix="r")
+            if observe(res) != ("geo", want_name) or str(res.geometry.dtype).split("[")[0] != want_kind:
+                chk.violation(f"active/sjoin-{how}-result-has-another-active-column", dict(api="sjoin", how=how, got=observe(res), dtype=str(res.geometry.dtype), expected=want_name))
+        except Exception as e:  # noqa: BLE001
+            chk.violation(f"active/sjoin-{how}-raises-{common.err_kind(e)}", dict(api="sjoin", how=how, error=repr(e)[:300]))
+    chk.count("sjoin-result-active", 3)
     # column labels that are falsy values (level-of-detail columns keyed 2, 1, 0; an empty string): selecting them is selecting them
     import dask.dataframe as dd
     for labels in ((2, 1, 0, 7), ("b", "a", "", "v")):
